@@ -313,6 +313,67 @@ type T struct {
 
 func (T) TableName() string { return "ts" }
 
+// TS is T with a soft-delete column (C08, C09).
+type TS struct {
+	ID        int64 `gorm:"primaryKey"`
+	Age       int64
+	Name      string
+	Nick      *string
+	Mark      int64
+	DeletedAt gorm.DeletedAt
+}
+
+func (TS) TableName() string { return "tss" }
+
+// UseSoft selects the model the struct units, destinations and Model() calls use.
+var UseSoft bool
+
+func Table() string {
+	if UseSoft {
+		return "tss"
+	}
+	return "ts"
+}
+
+// NewModel returns a pointer to a zero model value, NewSlice a pointer to an empty slice.
+func NewModel() interface{} {
+	if UseSoft {
+		return &TS{}
+	}
+	return &T{}
+}
+func NewSlice() interface{} {
+	if UseSoft {
+		return &[]TS{}
+	}
+	return &[]T{}
+}
+
+// IDs extracts the primary keys from a slice filled by Find.
+func IDs(slice interface{}) []int64 {
+	out := []int64{}
+	switch v := slice.(type) {
+	case *[]T:
+		for _, x := range *v {
+			out = append(out, x.ID)
+		}
+	case *[]TS:
+		for _, x := range *v {
+			out = append(out, x.ID)
+		}
+	}
+	return out
+}
+
+// StructCond builds the struct condition in the selected model type.
+func StructCond(members []Atom) interface{} {
+	t := StructOf(members)
+	if UseSoft {
+		return &TS{Age: t.Age, Name: t.Name, Nick: t.Nick}
+	}
+	return &t
+}
+
 // StructOf builds the struct condition for eq-atoms on distinct columns with non-zero values.
 func StructOf(members []Atom) T {
 	var t T
@@ -383,8 +444,7 @@ func (u Unit) QueryArgs(db *gorm.DB, byID map[int]Atom) (interface{}, []interfac
 		for _, id := range u.Members {
 			ms = append(ms, byID[id])
 		}
-		t := StructOf(ms)
-		return &t, nil
+		return StructCond(ms), nil
 	case "expr":
 		return u.CE.Build(byID), nil
 	case "group":
@@ -720,4 +780,166 @@ func NotOfAndGroupNoAtom(cs []Call) bool {
 		}
 	}
 	return false
+}
+
+// WhereText: the WHERE part of the SELECT gorm builds for the chain (DryRun), arguments inlined
+// by the dialector's Explain. "" when there is no WHERE.
+func WhereText(db *gorm.DB, tx *gorm.DB, conds ...interface{}) (string, error) {
+	st := tx.Session(&gorm.Session{DryRun: true}).Find(NewSlice(), conds...).Statement
+	if st.Error != nil {
+		return "", st.Error
+	}
+	full := db.Dialector.Explain(st.SQL.String(), st.Vars...)
+	i := strings.Index(full, " WHERE ")
+	if i < 0 {
+		return "", nil
+	}
+	return full[i+len(" WHERE "):], nil
+}
+
+func addText(m map[int][]string, id int, t string) {
+	if t == "" {
+		return
+	}
+	for _, x := range m[id] {
+		if x == t {
+			return
+		}
+	}
+	m[id] = append(m[id], t)
+}
+
+// DiscoverTexts renders every atom alone through gorm in each form (and its negation through
+// Not) and returns the accepted texts per atom id. base must be a handle WITHOUT soft-delete
+// scope effects on the text (use Unscoped for soft-delete models).
+func DiscoverTexts(db *gorm.DB, base func() *gorm.DB, atoms []Atom) (map[int][]string, []error) {
+	texts := map[int][]string{}
+	var errs []error
+	rec := func(id int, tx *gorm.DB) {
+		t, err := WhereText(db, tx)
+		if err != nil {
+			errs = append(errs, err)
+		}
+		addText(texts, id, t)
+	}
+	for _, a := range atoms {
+		addText(texts, a.ID, a.RawText())
+		_, ex, _, _ := a.TmplText(false)
+		addText(texts, a.ID, ex)
+		rec(a.ID, base().Where(a.Expression()))
+		rec(a.NegID(), base().Not(a.Expression()))
+		if a.MapOK() {
+			rec(a.ID, base().Where(map[string]interface{}{a.Col: a.MapValue()}))
+			rec(a.NegID(), base().Not(map[string]interface{}{a.Col: a.MapValue()}))
+		}
+		if a.Op == "eq" && (a.IsStr && a.S != "" || !a.IsStr && a.I != 0) {
+			rec(a.ID, base().Where(StructCond([]Atom{a})))
+			rec(a.NegID(), base().Not(StructCond([]Atom{a})))
+		}
+	}
+	return texts, errs
+}
+
+// GenAtoms draws 4..7 atoms with pairwise non-prefix texts.
+func GenAtoms(r *lib.Rng, names, nicks []string) []Atom {
+	var out []Atom
+	seen := map[string]bool{}
+	n := r.Range(4, 7)
+	for len(out) < n {
+		a := Atom{ID: len(out) + 1}
+		switch r.Intn(10) {
+		case 0, 1:
+			a.Col, a.Op, a.I = "age", "eq", int64(r.Range(0, 5))
+		case 2:
+			a.Col, a.Op, a.I = "age", lib.Pick(r, []string{"lt", "gt", "neq"}), int64(r.Range(1, 4))
+		case 3:
+			a.Col, a.Op, a.IL = "age", "in", []int64{int64(r.Range(0, 2)), int64(r.Range(3, 5))}
+		case 4, 5:
+			a.Col, a.Op, a.IsStr, a.S = "name", "eq", true, lib.Pick(r, names)
+		case 6:
+			a.Col, a.Op, a.IsStr, a.S = "name", "like", true, lib.Pick(r, []string{"a%", "%b", "%c%"})
+		case 7:
+			a.Col, a.Op = "nick", "isnull"
+		case 8:
+			a.Col, a.Op, a.IsStr, a.S = "nick", "eq", true, lib.Pick(r, nicks)
+		case 9:
+			a.Col, a.Op, a.IsStr, a.SL = "name", "in", true, []string{lib.Pick(r, names), lib.Pick(r, names)}
+		}
+		key := a.RawText()
+		// no atom text may be a prefix of another (the lexer takes the longest match)
+		clash := false
+		for k := range seen {
+			if strings.HasPrefix(k, key) || strings.HasPrefix(key, k) {
+				clash = true
+			}
+		}
+		// an atom and the negation gorm renders for another atom must not share a text
+		if a.Op == "eq" || a.Op == "neq" {
+			for _, b := range out {
+				if b.Col == a.Col && b.Op != a.Op && (b.Op == "eq" || b.Op == "neq") && b.I == a.I && b.S == a.S {
+					clash = true
+				}
+			}
+		}
+		if clash {
+			continue
+		}
+		seen[key] = true
+		out = append(out, a)
+	}
+	return out
+}
+
+// TruthTables asks SQLite for the truth value of every atom (and negated atom) in every row of
+// the table, rows in id order: "T" / "F" / "U".
+func TruthTables(db *gorm.DB, table string, atoms []Atom, texts map[int][]string) (map[int][]string, []error) {
+	out := map[int][]string{}
+	var errs []error
+	truth := func(id int, text string) {
+		rows, err := db.Raw("SELECT (" + text + ") FROM " + table + " ORDER BY id").Rows()
+		if err != nil {
+			errs = append(errs, err)
+			return
+		}
+		defer rows.Close()
+		for rows.Next() {
+			var v *int64
+			rows.Scan(&v)
+			switch {
+			case v == nil:
+				out[id] = append(out[id], "U")
+			case *v != 0:
+				out[id] = append(out[id], "T")
+			default:
+				out[id] = append(out[id], "F")
+			}
+		}
+	}
+	for _, a := range atoms {
+		truth(a.ID, a.RawText())
+		if ts := texts[a.NegID()]; len(ts) > 0 {
+			truth(a.NegID(), ts[0])
+		}
+	}
+	return out, errs
+}
+
+// GRows prints per-row valuations: [(id, [(atom, tv); ...]); ...].
+func GRows(ids []int64, truth map[int][]string) string {
+	aids := []int{}
+	for id := range truth {
+		aids = append(aids, id)
+	}
+	sort.Ints(aids)
+	rows := make([]string, len(ids))
+	for i, id := range ids {
+		vals := []string{}
+		for _, a := range aids {
+			if i < len(truth[a]) {
+				vals = append(vals, lib.Pair(lib.Nat(a), map[string]string{"T": "TT", "F": "TF", "U": "TU"}[truth[a][i]]))
+			}
+		}
+		rows[i] = lib.Pair(lib.Z(id), lib.List(vals))
+	}
+	return lib.List(rows)
 }
